@@ -204,4 +204,14 @@ theorem coverage_arrived_and_renamed_partial (fs0 : FS) (hwf : fs0.WF) (full : B
   obtain ⟨inv, hs, hc⟩ := after_history fs0 hwf full pre hv hroot
   exact covered_of_inv (paced_step _ _ inv hs hc (okBurst_of_check _ _ (by simp [okBurstB, hb]))).1 _ rfl rfl rfl
 
+
+/-- coverage of a directory tree RENAMED TWICE IN A ROW (`rename a b; rename b c` in one batch): afterwards every
+    directory of the tree - the moved ones under their final names - is watched under its real current path -/
+theorem coverage_renamed_twice_partial (fs0 : FS) (hwf : fs0.WF) (full : Bool) (pre : List Op) (a b c : P)
+    (hv : allValid (Sys.start fs0 true full) pre = true) (hroot : Op.rmdir ["W"] ∉ pre)
+    (hb : renameChainB ((Sys.start fs0 true full).run pre).1 [.rename a b, .rename b c] = true) :
+    Covered (((Sys.start fs0 true full).run pre).1.burst [.rename a b, .rename b c]).1 := by
+  obtain ⟨inv, hs, hc⟩ := after_history fs0 hwf full pre hv hroot
+  exact covered_of_inv (paced_step _ _ inv hs hc (okBurst_of_check _ _ (by simp [okBurstB, hb]))).1 _ rfl rfl rfl
+
 end WD.C02
